@@ -1,5 +1,48 @@
-(* C15 -- statements are added as the lemma chain lands; see An_stmts.v *)
-From PM Require Import Calculus.
-Theorem C15_rule_table_is_documented : True.
-Proof. exact Logic.I. Qed.
-Print Assumptions C15_rule_table_is_documented.
+(* C15 -- the fields of a function result agree with each other and across modes.  Statements only. *)
+From Coq Require Import String List Bool.
+From PM Require Import Semiring Poly Rel Analysis Calculus An_stmts.
+From PM Require An_closed An_witness.
+Import ListNotations.
+
+(* infinite: relation only when run-to-completion was requested; not infinite: relation present and the
+   delta graph never collapsed *)
+Theorem C15_which_fields_are_present :
+  forall f stop res, analyse f stop = ROk res ->
+    (fr_infinite res = true -> (fr_rel res <> None <-> stop = false)) /\
+    (fr_infinite res = false -> fr_rel res <> None /\ fr_delta_infty res = false).
+Proof. exact An_closed.result_fields. Qed.
+
+(* for functions that are not infinite the two modes produce equal results *)
+Theorem C15_modes_equal_when_not_infinite :
+  forall f r1 r2, analyse f true = ROk r1 -> analyse f false = ROk r2 ->
+    fr_infinite r1 = fr_infinite r2 /\ (fr_infinite r1 = false -> r1 = r2).
+Proof. exact An_closed.modes_agree. Qed.
+
+(* a non-infinite result has a valid vector of the reported degree, and its choice object accepts exactly
+   the derivable vectors, where the relation's matrix is the derived one (hence free of infinity) *)
+Theorem C15_choices_are_the_derivable_vectors :
+  forall f stop res, func_ok f -> analyse f stop = ROk res -> fr_infinite res = false ->
+    fr_index res = sites f /\ fr_vars res = func_vars f /\
+    exists r, fr_rel res = Some r /\ rvars r = func_vars f /\
+    forall cs, vec_ok (fr_index res) cs ->
+      (accepted (fr_inf_deltas res) cs = true <-> exists A, fst (derive_func f cs) = Some A) /\
+      (forall A, fst (derive_func f cs) = Some A ->
+         apply_choice r (choice_of_list cs) = smat_table (func_vars f) A).
+Proof. exact An_closed.finite_result. Qed.
+
+(* "its choice object accepts exactly the vectors at which its own relation has no infinity": the
+   direction accepted -> no infinity follows from the theorem above (a derived matrix has no infinity);
+   the converse is REFUTED on the faithful model (open finding, see known_findings.json): for
+   x=5; y=5; while(z>0){x=y+y;} while(z>0){z=x+x;} the vector (2,0) is rejected -- rightly, the calculus
+   has no derivation there -- although the reported relation shows no infinity at (2,0). *)
+Theorem C15_choices_exactly_relation_infinities_refuted :
+  exists res r, analyse An_witness.f_lost false = ROk res /\ fr_infinite res = false /\ fr_rel res = Some r /\
+    accepted (fr_inf_deltas res) [2; 0] = false /\
+    An_witness.has_infinity (apply_choice r (choice_of_list [2; 0])) = false /\
+    fst (derive_func An_witness.f_lost [2; 0]) = None.
+Proof. exact An_witness.choices_stricter_than_relation. Qed.
+
+Print Assumptions C15_which_fields_are_present.
+Print Assumptions C15_modes_equal_when_not_infinite.
+Print Assumptions C15_choices_are_the_derivable_vectors.
+Print Assumptions C15_choices_exactly_relation_infinities_refuted.
